@@ -42,6 +42,7 @@ type DkgScenario struct {
 	Calls       []DkgCall   `json:"calls"`
 	TimeoutMs   int         `json:"timeout_ms"`
 	Generate    bool        `json:"generate"`
+	Warm        bool        `json:"warm"` // an earlier, fault-free generation of another account in the same wallet (from the last instance) comes first
 	Duties      []DutyOp    `json:"duties"`
 }
 
@@ -191,6 +192,19 @@ func RunDkgScenario(ctx context.Context, sc *DkgScenario, log *Log) error {
 		if in == nil {
 			return fmt.Errorf("unknown initiator %d", sc.Initiator)
 		}
+		if sc.Warm {
+			// the wallet already holds an account created through Dirk since the instances started
+			w := c.Inst[c.Order[len(c.Order)-1]]
+			wn, _, _ := strings.Cut(sc.Account, "/")
+			var wres *pb.GenerateResponse
+			var werr error
+			_ = c.deliver(w, "Generate", func() error {
+				wres, werr = w.St.AcctH.Generate(credsCtx(ctx, client, ""), roundTrip(&pb.GenerateRequest{Account: wn + "/warm", Passphrase: []byte("pass"),
+					Participants: uint32(len(c.Order)), SigningThreshold: uint32(len(c.Order))}, &pb.GenerateRequest{}))
+				return nil
+			})
+			log.Emit(Ev{"ev": "Warm", "ok": werr == nil && wres != nil && wres.GetState() == pb.ResponseState_SUCCEEDED})
+		}
 		var res *pb.GenerateResponse
 		var gerr error
 		_ = c.deliver(in, "Generate", func() error {
@@ -280,6 +294,12 @@ func (c *Cluster) probe(ctx context.Context, sc *DkgScenario, parts []uint64, co
 				sigs[id] = *bk.SignByte(root[:]) // the faulty participant keeps signing with its other key
 			}
 		}
+		// ... and addressed by the share's public key
+		signKeyOK := false
+		if share, herr := hex.DecodeString(c.Inspect(ctx, in, sc.Account).Share); herr == nil && len(share) == 48 {
+			kres, kerr := in.St.SignerH.Sign(cctx, roundTrip(&pb.SignRequest{Id: &pb.SignRequest_PublicKey{PublicKey: share}, Domain: domain, Data: data}, &pb.SignRequest{}))
+			signKeyOK = kerr == nil && kres.GetState() == pb.ResponseState_SUCCEEDED && len(kres.GetSignature()) > 0
+		}
 		wn, _, _ := strings.Cut(sc.Account, "/")
 		lres, err := in.St.ListerH.ListAccounts(cctx, roundTrip(&pb.ListAccountsRequest{Paths: []string{wn}}, &pb.ListAccountsRequest{}))
 		if err == nil {
@@ -289,7 +309,7 @@ func (c *Cluster) probe(ctx context.Context, sc *DkgScenario, parts []uint64, co
 				}
 			}
 		}
-		log.Emit(Ev{"ev": "Usable", "inst": id, "sign": signOK, "list": listOK})
+		log.Emit(Ev{"ev": "Usable", "inst": id, "sign": signOK, "signkey": signKeyOK, "list": listOK})
 	}
 	var cpk bls.PublicKey
 	cb, _ := hex.DecodeString(composite)
@@ -378,8 +398,14 @@ func (c *Cluster) runDuties(ctx context.Context, sc *DkgScenario, infos map[uint
 				one.Id = &pb.SignBeaconAttestationRequest_Account{Account: sc.Account}
 			}
 			switch d.Variant {
-			case "batch1", "batch2":
+			case "batch1", "batch2", "batch2d":
 				req := &pb.SignBeaconAttestationsRequest{Requests: []*pb.SignBeaconAttestationRequest{one}}
+				if d.Variant == "batch2d" {
+					// the duty is followed by an entry that the rules REFUSE (target not after source) for another account
+					req.Requests = append(req.Requests, &pb.SignBeaconAttestationRequest{Id: &pb.SignBeaconAttestationRequest_Account{Account: "W1/a0"}, Domain: attDomain,
+						Data: &pb.AttestationData{Slot: 1, CommitteeIndex: 1, BeaconBlockRoot: rootBytes("F"),
+							Source: &pb.Checkpoint{Epoch: d.Filler + 1, Root: rootBytes("f")}, Target: &pb.Checkpoint{Epoch: d.Filler, Root: rootBytes("g")}}})
+				}
 				if d.Variant == "batch2" {
 					req.Requests = append(req.Requests, &pb.SignBeaconAttestationRequest{Id: &pb.SignBeaconAttestationRequest_Account{Account: "W1/a0"}, Domain: attDomain,
 						Data: &pb.AttestationData{Slot: 1, CommitteeIndex: 1, BeaconBlockRoot: rootBytes("F"),
